@@ -314,3 +314,38 @@ func VerifH_C14_StaleWriteFirst() {
 	verifrt.Assert(r.Header.ID == 2 && r.Header.RCode == 6, "and answered with the reply to this query")
 	verifrt.Assert(len(conns) == 2, "on a fresh connection")
 }
+
+// VerifH_C14_ParkedDialThenStale: exchange A gives up while its dial is still running; the dial completes anyway and
+// the connection is parked in the idle pool without ever having carried a query. The server drops it while it sits
+// there. Exchange B picks it up: like any other stale pooled connection it must be survived — B is retried on a
+// fresh connection and answered.
+func VerifH_C14_ParkedDialThenStale() {
+	verifrt.Unwind(80)
+	verifrt.SchedBound(1)
+	var conns []*vNetConn
+	gate := make(chan struct{})
+	t := NewReuseConnTransport(ReuseConnOpts{DialContext: func(ctx context.Context) (net.Conn, error) {
+		if len(conns) == 0 {
+			<-gate // the first dial is slow
+		}
+		c := newVNetConn()
+		conns = append(conns, c)
+		go vServe(c)
+		return c, nil
+	}})
+	ctxA, cancelA := verifrt.CtxWithCancel(nil)
+	resA := make(chan vExRes, 1)
+	go func() { r, err := t.ExchangeContext(ctxA, vQuery12(1, 1)); resA <- vExRes{r, err} }()
+	verifrt.Quiesce()
+	cancelA()
+	rA := <-resA
+	verifrt.Assert(rA.m == nil && rA.err != nil, "A gives up while dialling")
+	close(gate)
+	verifrt.Quiesce()
+	verifrt.Assert(len(conns) == 1, "the abandoned dial completed")
+	conns[0].Close() // the server drops the idle connection
+	verifrt.Quiesce()
+	r, err := t.ExchangeContext(context.Background(), vQuery12(2, 6))
+	verifrt.Reach("returned")
+	verifrt.Assert(err == nil && r != nil && r.Header.ID == 2 && r.Header.RCode == 6, "a stale pooled connection is survived while a healthy server is reachable")
+}
